@@ -17,6 +17,7 @@ STUBS = [
     "any_array.cpu_vdot (ducc0.misc.vdot): sum(conj(a)*b) for object arrays",
     "diagonal_operator.mul_conj2/div_conj2 (ducc0 experimental): a*conj(b), a/conj(b) -- the module's own ImportError fallback",
     "utilities.iscomplextype: object dtype counts as complex iff the scenario runs in complex mode",
+    "AnyArray.norm on object arrays: sqrt(sum |x_i|^2), sum |x_i|, max |x_i| written out (np.linalg.norm omits the conjugation for object dtype)",
     "AnyArray.real/.imag: element-wise on object arrays (NumPy returns self / zeros for object dtype)",
     "module-level numpy proxy: isnan/isfinite (False/True on symbolic reals), empty/zeros/ones/full (object arrays "
     "while a symbolic path is active), sqrt/exp/log/... on scalars call the symbolic scalar's method; "
@@ -401,6 +402,37 @@ def install():
                 return aa.AnyArray(out.view(sc.SymArr))
             return aa.AnyArray(getattr(v, which))
         return property(get)
+    orig_norm = aa.AnyArray.norm
+
+    def norm(self, ord=2):
+        v = self._val
+        if _isobj(v):
+            # np.linalg.norm on object arrays forms x.dot(x) (no conjugation) and forks in max():
+            # documented vector norms written out on the elements
+            el = list(v.reshape(-1))
+
+            def a2(e):
+                e = sc._lift(e)
+                return e.r * e.r + e.i * e.i if isinstance(e, SC) else e * e
+            if ord == 2 or ord is None:
+                t = 0
+                for e in el:
+                    t = t + a2(e)
+                return sc._lift(t).sqrt()
+            mags = [abs(sc._lift(e)) if not isinstance(sc._lift(e), SC) else a2(e).sqrt() for e in el]
+            if ord == 1:
+                t = 0
+                for m in mags:
+                    t = t + m
+                return t
+            if ord == np.inf:
+                t = mags[0]
+                for m in mags[1:]:
+                    t = sc._lift(t).maximum(m)
+                return t
+            raise sc.HarnessError(f"norm(ord={ord}) of a symbolic array not supported")
+        return orig_norm(self, ord)
+    aa.AnyArray.norm = norm
     aa.AnyArray.real = _part("real")
     aa.AnyArray.imag = _part("imag")
     proxy_np(aa)   # np.isreal/np.iscomplex/np.isscalar on symbolic scalars (AnyArray.full)
